@@ -965,7 +965,7 @@ def server_loop_world(run, seed, front, attacked, steps, focus):
     from mpgameserver.connection import PacketHeader
     rng = random.Random(seed)
     arng = random.Random(seed * 7919 + 17)
-    policy = V.random_policy(rng, p_raise=0.0, echo=1.0, chatty=False)
+    policy = V.random_policy(rng, p_raise=rng.choice([0.0, 0.2]), echo=1.0, chatty=False)
     w = X.WorldX(run, rng, cfg=(5 * T, 2 * T, 1536, T), policy=policy, full=True, front=front, sentinel_first=True)
     sim = w.sim
     addrs = [("10.1.0.%d" % (i + 1), 5000 + i) for i in range(2)]
